@@ -1,0 +1,23 @@
+//go:build verif
+
+// Package verifhook provides instrumentation points for the verification harness.
+// With the `verif` build tag, At dispatches to a callback the harness installs.
+package verifhook
+
+import "sync/atomic"
+
+type callback func(point string, args ...interface{})
+
+var cb atomic.Value
+
+// Set installs (or, with nil, removes) the callback invoked at every instrumentation point.
+func Set(f func(point string, args ...interface{})) {
+	cb.Store(callback(f))
+}
+
+// At marks an instrumentation point.
+func At(point string, args ...interface{}) {
+	if f, ok := cb.Load().(callback); ok && f != nil {
+		f(point, args...)
+	}
+}
